@@ -327,6 +327,13 @@ func (x *Exec) jsonConvert0(v Value, st, dt types.Type, fold bool) (Value, bool)
 			var data *SliceV
 			if isRawMessage(st) {
 				data, _ = v.(*SliceV)
+			} else if t, isT := v.(*Term); isT && t.IsConc() && t.S == SBool {
+				// a JSON boolean is handed to the custom decoder as its text (decoders test for "true"/"false")
+				txt := "false"
+				if t.C.(bool) {
+					txt = "true"
+				}
+				data = x.byteSlice(x.toStrV(mkStr(txt)).B)
 			} else {
 				data = x.byteSlice(x.newToken("json", &IfaceV{T: st, V: v}).B)
 			}
